@@ -157,6 +157,26 @@ def gen_cases(rng, tier):
                 ids = [f"rec{i:02d}" for i in range(n - nbad)] + [f"bad{i:02d}" for i in range(n - nbad, n)]
                 rcases.append({"ids": ids, "store": store, "logger": bool((n + nbad) % 2), "ordered": True,
                                "kills": list(range(1, n + 1)), "kills_after_write": [n]})  # fmt: skip
+        # (a) two not-completed records from the first run: one always fails, one failed transiently (succeeds when
+        #     run again) and comes after it; (b) second run with mode "w": a fresh store object on the same path after
+        #     a kill / after a clean run on a prefix of the inputs; (c) the same app and store object (mode "w") used
+        #     for a prefix of the inputs and then for all of them
+        sizes = [4] if tier == "quick" else [3, 4, 6]
+        for n in sizes:
+            extra = [f"rec{i:02d}" for i in range(2, n)]
+            allk = list(range(1, n + 1))
+            late = [k for k in allk if k >= 3]
+            ids_t = ["bad00", "flaky01"] + extra
+            rcases.append({"ids": ids_t, "store": store, "logger": bool(n % 2), "ordered": True, "kills": late, "kills_after_write": [n]})
+            ids_w = (["rec00", "rec01", "bad02"] + [f"rec{i:02d}" for i in range(3, n)])[:n]
+            parts = [p for p in range(1, n)] if tier == "thorough" else [2, 3]
+            rcases.append({"ids": ids_w, "store": store, "logger": False, "ordered": True, "first_mode": "w", "second_mode": "w",
+                           "kills": [2, 3] if tier == "quick" else allk, "partials": parts})  # fmt: skip
+            ids_r = ["rec00", "bad01", "flaky02"] + [f"rec{i:02d}" for i in range(3, n)]
+            rcases.append({"ids": ids_r[:n], "store": store, "logger": bool((n + 1) % 2), "ordered": True, "first_mode": "w", "second_mode": "w",
+                           "reuse": True, "kills": [], "partials": [1, 3] if tier == "quick" else [p for p in range(1, n)]})  # fmt: skip
+            rcases.append({"ids": ids_t, "store": store, "logger": False, "ordered": True, "second_mode": "a",
+                           "reuse": True, "kills": [], "partials": [2] if tier == "quick" else [p for p in range(1, n)]})  # fmt: skip
     rng.shuffle(rcases)
     for ch in _chunks(rcases, 4):
         cases.append({"kind": "resume", "cases": ch})
@@ -695,11 +715,16 @@ def _rid(name):
     return b
 
 
+def _kind_of(name):
+    return "completed" if name.startswith("rec") or name.startswith("flaky") else "not_completed"
+
+
 def decide_resume(res, rec):
     case = rec["case"]
     store = case["store"]
     ids = case["ids"]
     n = len(ids)
+    mode2 = case.get("second_mode", "a")
     replay = {"kind": "resume", "cases": [case]}
     if rec["ref_status"] != {"exit": 0}:
         res.evals += 1
@@ -709,26 +734,53 @@ def decide_resume(res, rec):
     ref = [[_rid(i), k, c, ok] for i, k, c, ok in rec["ref_store"]]
     order = [_rid(x) for x in rec["ref_order"]]
     res.evals += 1
-    exp_kinds = {i: ("not_completed" if i.startswith("bad") else "completed") for i in ids}
+    # the uninterrupted run has no transient fault: 'flaky' inputs complete, 'bad' inputs never do
+    exp_kinds = {i: _kind_of(i) for i in ids}
     if sorted(order) != sorted(ids) or {i: k for i, k, _, _ in ref} != exp_kinds or not all(ok for *_, ok in ref):
         res.witness(f"C19/resume/{store}/uninterrupted-run-incomplete", executed=order, store=[(i, k) for i, k, _, _ in ref], replay_case=replay)
         return
     if case.get("ordered") and order != ids:
         raise RuntimeError(f"ordered inputs were processed in another order: {order} vs {ids}")
+    rl = rec.get("ref_listing")
+    if rl is not None:
+        res.evals += 1
+        got = sorted([_rid(i), "completed"] for i in rl["completed"]) + sorted([_rid(i), "not_completed"] for i in rl["not_completed"])
+        if sorted(got) != sorted([i, k] for i, k, _, _ in ref):
+            res.witness(f"C19/resume/{store}/returned-store-listing-differs-from-disk/uninterrupted-run", returned=rl, on_disk=[(i, k) for i, k, _, _ in ref], replay_case=replay)
     for run in rec["runs"]:
         kw = run.get("after_write")
+        part = run.get("partial")
         ex1 = [_rid(x) for x in run["first_executed"]]
-        # k = number of step executions in the interrupted run; with an interruption after the kw-th stored record
-        # every one of them finished
-        k = run["k"] if kw is None else len(ex1) + 1
+        # k = 1 + number of step executions that finished in the first run
+        if part is not None:
+            k = part + 1
+        elif kw is not None:
+            k = len(ex1) + 1
+        else:
+            k = run["k"]
         res.evals += 1
         res.count("resume:prefixes")
         res.count(f"resume:{store}")
-        only = dict(case, kills=[run["k"]], kills_after_write=[]) if kw is None else dict(case, kills=[], kills_after_write=[kw])
-        detail = dict(inputs=ids, store=store, kill_at_execution=run["k"], kill_after_stored_record=kw, first_executed=run["first_executed"], second_executed=run["second_executed"], replay_case={"kind": "resume", "cases": [only]})  # fmt: skip
-        nbad_before = sum(1 for i in ex1[: k - 1] if i.startswith("bad"))
-        res.sig("resume", store, n, k, nbad_before, case.get("logger"), "after-write" if kw else "at-step")
-        if run["first_status"] != {"exit": 9} or len(ex1) != (k if kw is None else kw):
+        variant = ("reuse-object" if run.get("reuse") else "fresh-object") + "-mode-" + mode2
+        res.count(f"resume:{variant}")
+        only = dict(case, kills=[], kills_after_write=[], partials=[])
+        if part is not None:
+            only["partials"] = [part]
+        elif kw is not None:
+            only["kills_after_write"] = [kw]
+        else:
+            only["kills"] = [run["k"]]
+        detail = dict(inputs=ids, store=store, second_run=variant, kill_at_execution=run["k"], kill_after_stored_record=kw,
+                      first_run_on_first_n_inputs=part, first_executed=run["first_executed"], second_executed=run["second_executed"],
+                      replay_case={"kind": "resume", "cases": [only]})  # fmt: skip
+        nbad_before = sum(1 for i in ex1[: k - 1] if not i.startswith("rec"))
+        how = "partial" if part is not None else ("after-write" if kw else "at-step")
+        res.sig("resume", store, n, k, nbad_before, case.get("logger"), how, variant)
+        if part is not None:
+            ok1 = run["first_status"] == {"exit": 0} and ex1 == ids[:part]
+        else:
+            ok1 = run["first_status"] == {"exit": 9} and len(ex1) == (k if kw is None else kw)
+        if not ok1:
             res.witness(f"C19/resume/{store}/interruption-not-at-kth-record", first_status=run["first_status"], first_exc=run.get("first_exc"), **detail)
             continue
         if "store_after_kill" not in run:
@@ -736,13 +788,19 @@ def decide_resume(res, rec):
             continue
         mid = [[_rid(i), kd, c, ok] for i, kd, c, ok in run["store_after_kill"]]
         done1 = {i for i, kd, _, _ in mid if kd == "completed"}
-        any1 = {i for i, _, _, _ in mid}
+        nc1 = {i for i, kd, _, _ in mid if kd == "not_completed"}
+        any1 = done1 | nc1
         res.count("resume:records-before-kill", len(mid))
         if any1 != set(ex1[: k - 1]):
             # observation about the driver (dies after exactly k-1 records), not the property
             res.count("resume:records-before-kill-differ-from-k-1")
         if run["second_status"] != {"exit": 0}:
             exc = run.get("second_exc") or {}
+            if store == "sqlite" and mode2 == "w" and exc.get("type") == "OSError" and "locked" in (exc.get("msg") or "") and part is None:
+                # documented refusal: a killed process leaves its lock and mode 'w' does not take over a locked db
+                res.refused += 1
+                res.count("resume:refused-overwrite-of-locked-db")
+                continue
             res.witness(f"C19/resume/{store}/second-run-fails/raises-{exc.get('type')}", second_status=run["second_status"], second_exc=exc, **detail)
             continue
         if "store_final" not in run:
@@ -757,11 +815,26 @@ def decide_resume(res, rec):
         missing = set(ids) - any1
         if not missing <= set(ex2):
             res.witness(f"C19/resume/{store}/missing-record-not-processed", not_processed=sorted(missing - set(ex2)), **detail)
+        # expected final store: the uninterrupted one; an input that only has a not-completed record from the first
+        # run may or may not be attempted again (G): if it was not, that record must still be there unchanged
+        kept = {i for i in nc1 if i not in ex2}
+        expected = [e for e in ref if e[0] not in kept] + [e for e in mid if e[0] in kept]
+        retried = sorted(i for i in nc1 if i in ex2)
+        if retried:
+            res.count("resume:not-completed-retried", len(retried))
+        if kept:
+            res.count("resume:not-completed-kept", len(kept))
+        if len(nc1) >= 2 and any(i.startswith("flaky") for i in nc1) and any(i.startswith("bad") for i in nc1):
+            bad_first = min(ids.index(i) for i in nc1 if i.startswith("bad")) < max(ids.index(i) for i in nc1 if i.startswith("flaky"))
+            if bad_first:
+                res.count("resume:transient-after-always-failing")
         fin = sorted([_rid(i), kd, c, ok] for i, kd, c, ok in run["store_final"])
-        if fin != sorted(ref):
+        if fin != sorted(expected):
             fi = {(i, kd) for i, kd, _, _ in fin}
-            ri = {(i, kd) for i, kd, _, _ in ref}
-            if len(fin) != len(fi):
+            ri = {(i, kd) for i, kd, _, _ in expected}
+            if len({i for i, _ in fi}) != len(fi):
+                cls = "id-both-completed-and-not-completed"
+            elif len(fin) != len(fi):
                 cls = "duplicate-members"
             elif fi - ri and {i for i, _ in fi} == {i for i, _ in ri}:
                 cls = "record-kind-differs"
@@ -773,20 +846,37 @@ def decide_resume(res, rec):
                 cls = "md5-mismatch"
             else:
                 cls = "content-differs"
-            res.witness(f"C19/resume/{store}/final-store-differs/{cls}", final=[(i, kd) for i, kd, _, _ in fin], uninterrupted=[(i, kd) for i, kd, _, _ in ref], **detail)  # fmt: skip
+            res.witness(f"C19/resume/{store}/final-store-differs/{cls}", final=[(i, kd) for i, kd, _, _ in fin], expected=[(i, kd) for i, kd, _, _ in expected], **detail)  # fmt: skip
+        # the store object the second apply_to returned must list what is on disk
+        lst = run.get("returned_listing")
+        if lst is not None:
+            res.count("resume:returned-listing-compared")
+            got = sorted([_rid(i), "completed"] for i in lst["completed"]) + sorted([_rid(i), "not_completed"] for i in lst["not_completed"])
+            disk = sorted([i, kd] for i, kd, _, _ in fin)
+            if sorted(got) != disk:
+                res.witness(f"C19/resume/{store}/returned-store-listing-differs-from-disk/{variant}", returned=lst, on_disk=disk, **detail)
+        else:
+            res.witness(f"C19/resume/{store}/second-run-returned-no-store", **detail)
         # what the second run had to do
         left = [i for i in ids if i not in done1]
         if not (set(ids) - any1):
             res.count("resume:second-run-nothing-left")
-        elif all(i.startswith("bad") for i in set(ids) - any1):
+        elif all(not i.startswith("rec") for i in set(ids) - any1):
             res.count("resume:second-run-only-failures-left")
         # store-level state (read with sqlite3 / os, not through the library)
         mref, mfin = rec.get("ref_meta"), run.get("meta_final")
         if mref is not None and mfin is not None:
             res.count("resume:store-level-compared")
-            diff = sorted(key for key in set(mref) | set(mfin) if mref.get(key) != mfin.get(key))
+            mexp = dict(mref)
+            ncomp = sum(1 for e in expected if e[1] == "completed")
+            nnc = len(expected) - ncomp
+            if store == "dir":
+                mexp.update(n_md5=len(expected), n_completed_files=ncomp, n_not_completed_files=nnc)
+            else:
+                mexp.update(n_completed=ncomp, n_not_completed=nnc)
+            diff = sorted(key for key in set(mexp) | set(mfin) if mexp.get(key) != mfin.get(key))
             if diff:
-                res.witness(f"C19/resume/{store}/store-level-state-differs/{'+'.join(diff)}", uninterrupted=mref, resumed=mfin, left_for_second_run=left, **detail)  # fmt: skip
+                res.witness(f"C19/resume/{store}/store-level-state-differs/{'+'.join(diff)}", expected=mexp, resumed=mfin, left_for_second_run=left, **detail)  # fmt: skip
     res.sample({"resume": case})
 
 
@@ -828,6 +918,12 @@ def required(counters, tier):
     need("resume:second-run-nothing-left", 2)
     need("resume:second-run-only-failures-left", 2)
     need("resume:store-level-compared", 8)
+    need("resume:returned-listing-compared", 8)
+    need("resume:transient-after-always-failing", 2)
+    need("resume:not-completed-retried", 2)
+    need("resume:fresh-object-mode-w", 4)
+    need("resume:reuse-object-mode-w", 2)
+    need("resume:reuse-object-mode-a", 2)
     need("dest-is-directory:cases", 10)
     need("two-fault:delivered:audit:error", 10)
     need("two-fault:delivered:audit:kill", 10)
